@@ -6,6 +6,7 @@ package main
 import (
 	"bufio"
 	"bytes"
+	"compress/gzip"
 	"crypto/tls"
 	"encoding/json"
 	"fmt"
@@ -97,6 +98,28 @@ func faultResponder(p *peer, ci, ri int, req *wireMsg, w io.Writer) bool {
 	case "bad_chunk_size":
 		w.Write(append(append([]byte{}, head...), []byte("3e8\r\n"+string(c12Body[:1000])+"\r\nzz\r\n"+string(c12Body[1000:1100])+"\r\n0\r\n\r\n")...))
 		return true
+	case "bad_gzip":
+		// the proxy solicited gzip itself; k=0: deflate stream damaged in the middle, k=1: checksum trailer wrong
+		var zb bytes.Buffer
+		zw := gzip.NewWriter(&zb)
+		for i := 0; i < 20000; i++ {
+			fmt.Fprintf(zw, "line %d of a compressible reply\n", i*7919)
+		}
+		zw.Close()
+		z := zb.Bytes()
+		if k == 0 {
+			for i := len(z) / 2; i < len(z)/2+64; i++ {
+				z[i] ^= 0xff
+			}
+		} else {
+			z[len(z)-6] ^= 0x55
+		}
+		if !hasToken(req.get("Accept-Encoding"), "gzip") {
+			w.Write([]byte("HTTP/1.1 200 OK\r\nX-Fault-Origin: no-gzip-solicited\r\nContent-Length: 0\r\n\r\n"))
+			return false
+		}
+		w.Write(append([]byte(fmt.Sprintf("HTTP/1.1 200 OK\r\nContent-Type: text/plain\r\nX-Fault-Origin: yes\r\nContent-Encoding: gzip\r\nContent-Length: %d\r\n\r\n", len(z))), z...))
+		return false
 	case "trailing_garbage":
 		w.Write(append(append(append([]byte{}, head...), body...), []byte("GARBAGE GARBAGE\r\n\r\n")...))
 		return true
@@ -107,7 +130,7 @@ func faultResponder(p *peer, ci, ri int, req *wireMsg, w io.Writer) bool {
 
 type c12Env struct {
 	direct, via, mitm, viaRefused, viaTimeout *fwd
-	peers             []*peer
+	peers                                     []*peer
 }
 
 func newC12Env() *c12Env {
@@ -231,6 +254,8 @@ func c12Run(e *env) {
 			if c.F == "cut_body_chunked" {
 				ks = append(ks, 3, 4, 2005, 2010, 3014, 3015, 3016, 3017, 3018, 3019)
 			}
+		case "bad_gzip":
+			ks = []int{0, 1}
 		default:
 			ks = []int{0}
 		}
@@ -393,6 +418,16 @@ func (env *c12Env) faultCase(c c12Case, k int, rejf *fwd) map[string]any {
 		if complete && !isProxyError {
 			fail(fmt.Sprintf("upstream died mid-body but the client parsed a complete %d response with %d body bytes", got.Status, len(got.Body)))
 		}
+		if !complete {
+			// the aborted reply must end in a closed connection; a connection left open would take the
+			// next reply as the continuation of this one
+			cl.send([]byte("GET http://fu-" + host + "/ok HTTP/1.1\r\nHost: fu-" + host + "\r\n\r\n"))
+			if closed, extra := cl.expectClosed(4 * time.Second); !closed {
+				fail(fmt.Sprintf("upstream died mid-body but the client connection was left open for 4 s (%d more bytes arrived)", extra))
+			} else if extra > 0 && inner {
+				_ = extra // TLS close_notify etc.
+			}
+		}
 	case "full_or_error":
 		if !isOriginFull && !(isProxyError && got.Status >= 500) {
 			fail(fmt.Sprintf("neither the origin's complete response nor a 5xx error response (complete=%v)", complete))
@@ -419,6 +454,8 @@ func (env *c12Env) faultCase(c c12Case, k int, rejf *fwd) map[string]any {
 			// same failing host: another error response is fine
 		} else if err == nil && r2.Status != 200 {
 			fail(fmt.Sprintf("follow-up request on the kept-alive connection answered %d", r2.Status))
+		} else if ne, ok := err.(net.Error); ok && ne.Timeout() {
+			fail("follow-up request on the kept-alive connection not answered within 8 s")
 		} else if err != nil && !strings.Contains(err.Error(), "EOF") && !strings.Contains(err.Error(), "reset") && !strings.Contains(err.Error(), "closed") && !strings.Contains(err.Error(), "broken") {
 			fail("follow-up request on the kept-alive connection: " + err.Error())
 		}
